@@ -26,6 +26,7 @@
 #include <tuple>
 #include <type_traits>
 
+#include <unifex/detail/verif_hooks.hpp>
 #include <unifex/detail/prologue.hpp>
 
 namespace unifex {
@@ -55,6 +56,7 @@ struct _op<Receiver, StopTokens...>::type {
 
   void request_stop() noexcept {
     // update state to mark that at least one callback has been called
+    UNIFEX_VERIF_YIELD("race.r_xchg");
     auto oldState = callbackState_.exchange(
         _callback_state::AT_LEAST_ONE_CALLED, std::memory_order_acq_rel);
 
@@ -156,6 +158,7 @@ struct _op<Receiver, StopTokens...>::type {
     UNIFEX_CATCH(...) {
       // all the stop callbacks have been destroyed by the time we get here
       // so it's not possible for a callback to race with this load
+      UNIFEX_VERIF_YIELD("race.r_load");
       if (callbackState_.load(std::memory_order_acquire) ==
           _callback_state::AT_LEAST_ONE_CALLED) {
         // we received a stop request before we experienced an error
@@ -172,6 +175,7 @@ struct _op<Receiver, StopTokens...>::type {
     // previous state was INIT. If the previous state was AT_LEAST_ONE_CALLED,
     // don't change the state, but invoke complete() on behalf of the callback
     // that was invoked
+    UNIFEX_VERIF_YIELD("race.r_cas");
     if (!callbackState_.compare_exchange_strong(
             expected,
             _callback_state::ALL_CONSTRUCTED_NOT_CALLED,
